@@ -70,14 +70,33 @@ def load_functions(repo, engine):
         if fn is None:
             raise Unsupported(f"{path}: {cls}.{name} not found")
         out[name] = (path, fn)
-    # _trigger must only be called from processing_loop (it is the opaque unit of the model)
-    path, tree = trees["eng"]
+    # second public entry into the drain loop: StateMachine.activate_initial_state -> engine.activate_initial_state
+    eng_cls = want["processing_loop"][1]
+    fn = _find_func(trees["sm"][1], "StateMachine", "activate_initial_state")
+    if fn is not None:
+        out["sm.activate_initial_state"] = (trees["sm"][0], fn)
+    # every other method of the engine class (and of BaseEngine) may be inlined when the chain calls it (helpers
+    # such as a `_drain` extracted from processing_loop); methods the chain never reaches are never looked at
+    for k, cls in (("eng", eng_cls), ("base", "BaseEngine")):
+        path, tree = trees[k]
+        for node in tree.body:
+            if isinstance(node, ast.ClassDef) and node.name == cls:
+                for item in node.body:
+                    if isinstance(item, (ast.FunctionDef, ast.AsyncFunctionDef)) and item.name not in out and item.name not in ("_trigger", "__init__", "__call__"):
+                        out[item.name] = (path, item)
+    out["__engine_tree__"] = trees["eng"]
+    return out
+
+
+def check_trigger_callers(funcs, inlined):
+    """`_trigger` is the opaque unit of the model: every function of the engine module that calls it must have been
+    lowered (reached by inlining from one of the modelled entries), otherwise some path into it is not modelled."""
+    path, tree = funcs["__engine_tree__"]
     for node in ast.walk(tree):
-        if isinstance(node, (ast.FunctionDef, ast.AsyncFunctionDef)) and node.name not in ("processing_loop",):
+        if isinstance(node, (ast.FunctionDef, ast.AsyncFunctionDef)) and node.name not in inlined:
             for sub in ast.walk(node):
                 if isinstance(sub, ast.Call) and isinstance(sub.func, ast.Attribute) and sub.func.attr == "_trigger":
-                    raise Unsupported(f"{path}:{sub.lineno}: _trigger called outside processing_loop ({node.name})")
-    return out
+                    raise Unsupported(f"{path}:{sub.lineno}: _trigger called from {node.name}, which no modelled entry reaches")
 
 
 # --------------------------------------------------------------------------------------------- IR
@@ -100,6 +119,7 @@ class Lowering:
         self.rtc = rtc
         self.code = []
         self.depth = 0
+        self.inlined = {"processing_loop"}
 
     def emit(self, op, arg=None, line=0):
         self.code.append(Instr(op, arg, line=line))
@@ -153,8 +173,10 @@ class Lowering:
                 raise Unsupported(f"lock operation .{f.attr}() is not modelled")
             if f.attr == "_trigger":
                 return ("TRIG", None)
-            if f.attr in self.funcs and f.attr != "__call__":
-                return ("INLINE", f.attr)
+            if f.attr in self.funcs and f.attr != "__call__" and not f.attr.startswith("__"):
+                ch = self.attr_chain(f.value)
+                if ch and ch[0] in ("self", "machine"):
+                    return ("INLINE", f.attr)
         return ("other", None)
 
     # -- lowering -------------------------------------------------------------------------------
@@ -163,6 +185,16 @@ class Lowering:
         start = len(self.code)
         self.lower_body(path, fn.body, {"ret": "RET", "exc": "RAISE", "brk": None, "cnt": None}, None)
         return start
+
+    def lower_activation_entry(self):
+        """StateMachine.activate_initial_state(): the other public way into the drain loop (no event is put)."""
+        if "sm.activate_initial_state" not in self.funcs:
+            return None
+        path, fn = self.funcs["sm.activate_initial_state"]
+        nop = self.emit("NOP", line=fn.lineno)
+        e = self.lower_body(path, fn.body, {"ret": "RET", "exc": "RAISE", "brk": None, "cnt": None}, None)
+        self.code[nop].nxt = e
+        return nop
 
     def lower_body(self, path, stmts, k, fall):
         """Lower stmts; control falls through to label `fall` (None = function end: implicit return)."""
@@ -255,6 +287,7 @@ class Lowering:
             if self.depth > 6:
                 raise Unsupported(f"{path}:{ln}: inlining too deep")
             self.depth += 1
+            self.inlined.add(detail)
             # the inlined function's returns continue after the call: use a landing NOP
             land = self.emit("NOP", line=ln)
             k2 = {"ret": land, "exc": k["exc"], "brk": None, "cnt": None}
@@ -389,9 +422,17 @@ class Lowering:
 
 
 def compile_send(repo, engine, rtc=True):
+    code, entry, _act, funcs = compile_program(repo, engine, rtc)
+    return code, entry, funcs
+
+
+def compile_program(repo, engine, rtc=True):
+    """Returns (code, entry of send, entry of activate_initial_state or None, functions lowered)."""
     funcs = load_functions(repo, engine)
     lw = Lowering(funcs, engine, rtc)
     entry = lw.lower_entry()
+    act = lw.lower_activation_entry()
+    check_trigger_callers(funcs, lw.inlined)
     code = lw.code
     # squeeze NOP/JMP chains
     def resolve(t):
@@ -407,8 +448,10 @@ def compile_send(repo, engine, rtc=True):
             if v is not None:
                 setattr(ins, f, resolve(v))
     entry = resolve(entry)
+    if act is not None:
+        act = resolve(act)
     # keep only reachable real instructions, renumber
-    reach, todo = [], [entry]
+    reach, todo = [], [entry] + ([act] if isinstance(act, int) else [])
     while todo:
         t = todo.pop()
         if not isinstance(t, int) or t in reach:
@@ -428,7 +471,9 @@ def compile_send(repo, engine, rtc=True):
             v = getattr(ins, f)
             setattr(n, f, remap.get(v, v) if isinstance(v, int) else v)
         out.append(n)
-    return out, remap[entry], {name: os.path.relpath(p, repo) + ":" + fn.name for name, (p, fn) in funcs.items()}
+    used = set(lw.inlined) | {"__call__", "sm.activate_initial_state"}
+    listing_funcs = {name: os.path.relpath(p, repo) + ":" + fn.name for name, (p, fn) in funcs.items() if not name.startswith("__engine") and name in used}
+    return out, remap[entry], (remap[act] if isinstance(act, int) else act), listing_funcs
 
 
 def listing(code):
